@@ -56,7 +56,17 @@ RULE = ("configurations = endpoint (token, introspection, token_revocation, push
         "client database and key jar, and the credential matrix of ALL generations of the client's material (Basic, POST, "
         "client_secret_jwt, private_key_jwt RS/ES, request object; kid of the key / no kid / kid of the key in force) goes "
         "through parse_request at all five endpoints, judged: accepted as X only with the material in force; a case is "
-        "non-trivial when at least one method is usable for the request")
+        "non-trivial when at least one method is usable for the request; plus a deterministic block of DELIVERY FORMS on a "
+        "provider that owns an RSA and an EC decryption key (and on every credential-history provider): client_assertion / "
+        "request object inside a compact JWE (RSA-OAEP / ECDH-ES; cty JWT / absent; made for the provider's key or a "
+        "stranger's; one layer or a JWE inside a JWE) around bare JSON claims naming a registered client, an alg=none JWS, "
+        "a JWS signed with an unregistered key / another client's key or secret / the client's superseded secret or "
+        "superseded registered key, the genuine HS / RS / ES assertion, plain text; x the five endpoints x six method lists "
+        "(the three JWS-based methods, None = the whole registry, private_key_jwt alone, client_secret_jwt + basic, "
+        "request_param + post, the configured default) x body client_id absent / naming the client; parse_request against "
+        "the model's open_assertion / seen, then process_request (revocation, PAR, code redemption) and "
+        "client_credentials at an OAuth2 provider owning decryption keys - judged from generator ground truth: the "
+        "INNERMOST object and whose current key material signed it, whatever surrounds it")
 ASSUMPTIONS = [
     "cryptojwt verifies JWS signatures ideally: a signature verifies only under the key that made it (symbolic model)",
     "cryptojwt JWT.unpack / JsonWebToken.verify use a 15 s clock skew: an assertion counts as unexpired while now < exp + 15",
@@ -68,6 +78,10 @@ ASSUMPTIONS = [
     "endpoint.get_client_id_from_token (bearer methods) is an environment function cx_tok; that a token resolves only "
     "to the client it was minted for is property C04",
     "also_known_as, get_client_info and automatic_registration hooks of verify_client are absent (defaults)",
+    "JWE: decryption is ideal (only the holder of the private key a wrapper was made for opens it); what JWT.unpack makes of "
+    "an opened wrapper (cty JWT -> the content must be a JWS and is verified; otherwise JSON -> claims without a signature "
+    "check, anything else -> the plaintext itself) is the function open_assertion, compared on every wrapped request; "
+    "the content encryption (A128CBC-HS256) and damaged ciphertexts are not varied (C16 varies them for request objects)",
 ]
 
 NOW0 = 1_700_000_000
@@ -186,6 +200,78 @@ def observe_keyjar(world):
     return iss, own, kids
 
 
+# ------------------------------------------------------------------ delivery forms: encrypted wrappers
+# A client_assertion / request object AS DELIVERED is a bare spec (compact JWS, "notjwt") or a wrapper
+#   {"jwe": {"alg": "RSA-OAEP" | "ECDH-ES", "cty": "JWT" | None, "to": "OP" | "other"}, "inner": <content>}
+# whose content is a bare spec, "notjwt" (some text), {"json": spec} (the bare JSON claims of spec: nobody signed) or
+# another wrapper.  "to": whose public encryption key the JWE was made for - the provider's or a stranger's.
+ENC = {}
+JWE_KTY = {"RSA-OAEP": "RSA", "ECDH-ES": "EC"}
+
+
+def enc_keys():
+    """encryption key pairs: the provider's (filed in the key jar of the worlds that own encryption keys, the
+    public halves are what a provider publishes) and a stranger's; generated once per process"""
+    if not ENC:
+        from cryptojwt.jwk.ec import new_ec_key
+        from cryptojwt.jwk.rsa import new_rsa_key
+        for who in ("OP", "other"):
+            ENC[who] = {"RSA": new_rsa_key(use="enc", kid="%s-enc-rsa" % who),
+                        "EC": new_ec_key("P-256", use="enc", kid="%s-enc-ec" % who)}
+    return ENC
+
+
+def own_enc_keys(server):
+    """the provider owns an RSA and an EC decryption key (what a provider that supports encrypted request objects has)"""
+    from cryptojwt.key_bundle import KeyBundle
+    kb = KeyBundle()
+    for k in enc_keys()["OP"].values():
+        kb.append(k)
+    server.keyjar.add_kb("", kb)
+
+
+def is_wrapped(spec):
+    return isinstance(spec, dict) and "jwe" in spec
+
+
+def wrap(content, alg="RSA-OAEP", cty="JWT", to="OP"):
+    return {"jwe": {"alg": alg, "cty": cty, "to": to}, "inner": content}
+
+
+def core(spec):
+    """generator ground truth for the oracle: the INNERMOST object of a delivered assertion when that is a JWS (the
+    only thing in it a client's key can have signed), else "notjwt" - bare JSON claims and text are nobody's
+    credential, however many wrappers surround them and whoever can open them"""
+    while is_wrapped(spec):
+        spec = spec["inner"]
+    if isinstance(spec, dict) and "json" in spec:
+        return "notjwt"
+    return spec
+
+
+def oracle_view(rq):
+    """the request as the oracle judges it: every delivered object replaced by its core"""
+    if not any(is_wrapped(rq.get(f)) for f in ("assertion", "request")):
+        return rq
+    out = dict(rq)
+    for f in ("assertion", "request"):
+        if is_wrapped(out.get(f)):
+            out[f] = core(out[f])
+    return out
+
+
+def wire_text(world, content):
+    if is_wrapped(content):
+        from cryptojwt.jwe.jwe import JWE
+        h = content["jwe"]
+        kw = {"cty": h["cty"]} if h.get("cty") else {}
+        return JWE(wire_text(world, content["inner"]), alg=h["alg"], enc="A128CBC-HS256", **kw).encrypt(
+            keys=[enc_keys()[h["to"]][JWE_KTY[h["alg"]]]])
+    if isinstance(content, dict) and "json" in content:
+        return json.dumps(jwt_claims(content["json"]))
+    return sign_jwt(world, content)
+
+
 # ------------------------------------------------------------------ the world: a real provider + symbolic mirror
 class World:
     def __init__(self, ctx, keys, variant):
@@ -215,7 +301,7 @@ class World:
         elif variant == "own_oct":
             kj.add_symmetric("", OWN_OCT)
             self.kj_own.append(("oct", OWN_OCT))
-        elif variant == "rot_jar":
+        elif variant in ("rot_jar", "enc"):
             # a second symmetric key filed LATER under client_4 (a deployer who rotates a secret files the new one
             # with keyjar.add_symmetric: the old one stays): which of the two is the secret is the client database's say
             kj.add_symmetric("client_4", ROTATED)
@@ -227,6 +313,9 @@ class World:
             kj.add_symmetric("client_4", self.secret["client_4"])
             kj.import_jwks({"keys": [pub_jwk(keys["rsa2"]), pub_jwk(keys["ec2"])]}, "client_4")
             self.kj_iss["client_4"] = [("oct", ROTATED)] + self.kj_iss["client_4"]
+        if variant in ("enc", "rotation-enc"):
+            # the provider owns decryption keys as well (the key jar of rot_jar otherwise): compact JWEs are opened
+            own_enc_keys(self.server)
         obs = observe_keyjar(self)
         if obs[0] != self.kj_iss or obs[1] != self.kj_own:
             ctx.broken.append("the provider's key jar (%r, own %r) is not what the harness filed (%r, own %r)" % (
@@ -369,14 +458,9 @@ def sign_jwt(world, spec):
     from cryptojwt.jwk.hmac import SYMKey
     if spec == "notjwt":
         return "this-is-not-a-jwt"
-    claims = {}
-    for k in ("iss", "aud", "exp", "nbf", "iat", "jti"):
-        if spec.get(k) is not None:
-            claims[k] = spec[k]
-    sub, azp, cid = inner_claims(spec)
-    for k, v in (("sub", sub), ("azp", azp), ("client_id", cid)):
-        if v is not None:
-            claims[k] = v
+    if is_wrapped(spec):
+        return wire_text(world, spec)
+    claims = jwt_claims(spec)
     kind, kv = spec["key"]
     if spec["alg"] == "none":
         return JWS(json.dumps(claims), alg="none").sign_compact([])
@@ -392,6 +476,18 @@ def sign_jwt(world, spec):
     else:
         key = world.keys["%s%d" % (kind, kv)]
     return JWS(json.dumps(claims), alg=spec["alg"]).sign_compact([key])
+
+
+def jwt_claims(spec):
+    claims = {}
+    for k in ("iss", "aud", "exp", "nbf", "iat", "jti"):
+        if spec.get(k) is not None:
+            claims[k] = spec[k]
+    sub, azp, cid = inner_claims(spec)
+    for k, v in (("sub", sub), ("azp", azp), ("client_id", cid)):
+        if v is not None:
+            claims[k] = v
+    return claims
 
 
 def inner_claims(spec):
@@ -473,18 +569,36 @@ def cq_vkey(k):
     return "(%s %s)" % ("VRsa" if kind == "rsa" else "VEc", coq_nat(v))
 
 
+def cq_content(c):
+    if is_wrapped(c):
+        h = c["jwe"]
+        return "(CJwe %s %s %s)" % (coq_bool(h["to"] == "OP"), coq_bool((h.get("cty") or "").lower() == "jwt"), cq_content(c["inner"]))
+    if isinstance(c, dict) and "json" in c:
+        return "(CJson %s)" % cq_jwt(c["json"])
+    return "(CTok %s)" % ("NotJwt" if c == "notjwt" else "(Jwt %s)" % cq_jwt(c))
+
+
 def cq_token(spec):
     if spec is None:
         return "(@None token)"
     if spec == "notjwt":
         return "(Some NotJwt)"
+    if is_wrapped(spec):
+        # the delivered object; [seen] (Model) is the bare token the method loop treats in the same way
+        h = spec["jwe"]
+        return "(Some (seen (WJwe %s %s %s)))" % (coq_bool(h["to"] == "OP"), coq_bool((h.get("cty") or "").lower() == "jwt"),
+                                                  cq_content(spec["inner"]))
+    return "(Some (Jwt %s))" % cq_jwt(spec)
+
+
+def cq_jwt(spec):
     alg = {"none": "AlgNone", "HS256": "AlgHS", "RS256": "AlgRS", "ES256": "AlgES"}[spec["alg"]]
     kind, kv = spec["key"]
     key = "(KSym %s)" % coq_str(kv) if kind == "sym" else "(%s %s)" % ("KRsa" if kind == "rsa" else "KEc", coq_nat(kv))
     aud = "(@None (list pystr))" if spec.get("aud") is None else "(Some %s)" % coq_list([coq_str(a) for a in spec["aud"]], "pystr")
     sub, azp, cid = inner_claims(spec)
-    return ("(Some (Jwt {| j_alg := %s; j_key := %s; j_kid := %s; j_iss := %s; j_sub := %s; j_azp := %s; j_cid := %s; j_aud := %s; "
-            "j_exp := %s; j_nbf := %s; j_iat := %s; j_jti := %s |}))" % (
+    return ("{| j_alg := %s; j_key := %s; j_kid := %s; j_iss := %s; j_sub := %s; j_azp := %s; j_cid := %s; j_aud := %s; "
+            "j_exp := %s; j_nbf := %s; j_iat := %s; j_jti := %s |}" % (
                 alg, key, cq_optstr(spec.get("kid") or None), cq_optstr(spec.get("iss")), cq_optstr(sub), cq_optstr(azp), cq_optstr(cid), aud,
                 cq_optz(spec.get("exp")), cq_optz(spec.get("nbf")), cq_optz(spec.get("iat")), cq_optstr(spec.get("jti"))))
 
@@ -742,6 +856,7 @@ def proved_identities(world, cfg, rq, now):
     request_param-aud.  -> {X: kind of credential}"""
     cdb = world.c.cdb
     out = {}
+    rq = oracle_view(rq)
     h = rq.get("hdr")
     if h and h[0] in ("basic", "basic_raw"):
         txt = h[1] if h[0] == "basic" else (classify_basic_raw(h[1])[1] if classify_basic_raw(h[1])[0] == "text" else None)
@@ -770,7 +885,7 @@ def proved_identities(world, cfg, rq, now):
 def superseded_request_object(world, rq):
     """the client X whose SUPERSEDED secret MACed the request object of this request - a symmetric key that is still
     filed under X in the real key jar but is not the secret X's record holds now - else None"""
-    spec = rq.get("request")
+    spec = core(rq.get("request"))
     if not (isinstance(spec, dict) and spec["alg"] == "HS256" and spec["key"][0] == "sym"):
         return None
     x = spec.get("iss")
@@ -854,6 +969,7 @@ def oracle(ctx, world, cfg, rq, now, hist, rec, auth_ok, seen, outcome, fp_befor
     """all verdicts on one request; the generic identity verdict is listed after the specific ones it comes with
     (the first verdict of a run is the one the replay file shows)"""
     n0 = len(ctx.violations)
+    rq = oracle_view(rq)          # a delivered object counts for what its innermost object is: a JWS somebody signed, or nothing
     _oracle(ctx, world, cfg, rq, now, hist, rec, auth_ok, seen, outcome, fp_before, fp_after, jdb_before, jdb_after)
     ctx.violations[n0:] = sorted(ctx.violations[n0:], key=lambda v: v["sig"] == "identity-not-proved")
 
@@ -974,6 +1090,16 @@ def good_jwt(world, cfg, cid, alg, now, jti, **over):
     spec = {"alg": alg, "key": key, "iss": cid, "aud": [ep_url(world, cfg["ep"])], "exp": 3000, "jti": jti, "rel": True}
     spec.update(over)
     return spec
+
+
+def absolute(sp, now):
+    """the spec with exp / nbf / iat as points in time (a wrapper's content is made at once)"""
+    sp = dict(sp)
+    if sp.pop("rel", None):
+        for t in ("exp", "nbf", "iat"):
+            if sp.get(t) is not None:
+                sp[t] = now + sp[t]
+    return sp
 
 
 def resolve_times(rq, now):
@@ -1472,7 +1598,7 @@ class RotWorld(World):
     client was deleted; kj_iss[X] = the asymmetric keys in force (what the oracle calls registered)."""
 
     def __init__(self, ctx, keys, x):
-        World.__init__(self, ctx, keys, "plain")
+        World.__init__(self, ctx, keys, "rotation-enc")       # (a plain key jar that owns decryption keys as well)
         self.variant = "rotation"
         self.x = x
         self.gens = []
@@ -1651,6 +1777,9 @@ def rotation_matrix(world, cfg, now, tag):
             F.append(("rot:%s:hs-kid" % age, {"assertion": J("HS256", sk, "hsk", kid=K(sk))}))
             F.append(("rot:%s:hs-nokid" % age, {"assertion": J("HS256", sk, "hsn")}))
             F.append(("rot:%s:request-param-hs-kid" % age, {"request": J("HS256", sk, "rph", kid=K(sk))}))
+            # the same inside a wrapper the provider opens (RotWorld owns decryption keys)
+            F.append(("rot:%s:hs-kid-in-jwe" % age, {"assertion": wrap(absolute(J("HS256", sk, "hskw", kid=K(sk)), now), "ECDH-ES", "JWT")}))
+            F.append(("rot:%s:request-param-hs-kid-in-jwe" % age, {"request": wrap(absolute(J("HS256", sk, "rphw", kid=K(sk)), now), "RSA-OAEP", "JWT")}))
             if cur is not None and cur["secret"] != sec:
                 ck = ("sym", cur["secret"])
                 F.append(("rot:%s:hs-kid-of-secret-in-force" % age, {"assertion": J("HS256", sk, "hskc", kid=K(ck))}))
@@ -1665,9 +1794,15 @@ def rotation_matrix(world, cfg, now, tag):
             F.append(("rot:%s:%s-kid" % (age, nm), {"assertion": J(alg, k, nm + "k", kid=K(k))}))
             F.append(("rot:%s:%s-nokid" % (age, nm), {"assertion": J(alg, k, nm + "n")}))
             F.append(("rot:%s:request-param-%s-kid" % (age, nm), {"request": J(alg, k, nm + "q", kid=K(k))}))
+            F.append(("rot:%s:%s-kid-in-jwe" % (age, nm), {"assertion": wrap(absolute(J(alg, k, nm + "kw", kid=K(k)), now), "RSA-OAEP", "JWT")}))
+            F.append(("rot:%s:request-param-%s-nokid-in-jwe" % (age, nm), {"request": wrap(absolute(J(alg, k, nm + "qw"), now), "ECDH-ES", "JWT")}))
             other = [c for c in (cur["keys"] if cur else []) if c[0] == k[0] and c != k]
             if other:
                 F.append(("rot:%s:%s-kid-of-key-in-force" % (age, nm), {"assertion": J(alg, k, nm + "c", kid=K(other[0]))}))
+    # bare claims naming the client, inside a wrapper: nobody's credential in any generation
+    for field, alg in (("assertion", "RSA-OAEP"), ("request", "ECDH-ES")):
+        F.append(("rot:unsigned:%s-json-in-jwe" % field,
+                  {field: wrap({"json": absolute(good_jwt(world, cfg, x, "none", now, "r-json-%s-%s" % (field, tag), key=("sym", "")), now)}, alg, None)}))
     s = world.secret
     F.append(("rot:bystander:basic1", {"hdr": ("basic", "client_1:%s" % s["client_1"])}))
     F.append(("rot:bystander:hs1-kid", {"assertion": good_jwt(world, cfg, "client_1", "HS256", now, "r-b1-" + tag,
@@ -1764,6 +1899,7 @@ def run(ctx):
         identity_processing(ctx, worlds["plain"], clock, cases)
         identity_client_credentials(ctx, keys, clock)
         long_lived_replays(ctx, worlds["plain"], clock, cases)
+        wrapped_deliveries(ctx, keys, clock, cases)
         credential_histories(ctx, keys, clock, cases)
         cfgs = configurations(ctx, rng, worlds)
         for i, (variant, cfg, mode) in enumerate(cfgs):
@@ -1943,10 +2079,13 @@ class CCWorld:
     confidential clients; just enough of World for sign_jwt / proved_identities."""
     variant = "oauth2"
 
-    def __init__(self, keys):
+    def __init__(self, keys, enc=False):
         import srv
         self.keys = keys
         self.server = srv.make_server(clients=("client_1", "client_2"), oidc=False)
+        if enc:
+            own_enc_keys(self.server)
+            self.variant = "oauth2-enc"
         self.c = self.server.context
         self.server.keyjar.import_jwks({"keys": [pub_jwk(keys["rsa1"]), pub_jwk(keys["ec1"])]}, "client_2")
         self.c.cdb["client_1"]["allowed_scopes"] = ["scope_of_client_1"]
@@ -1989,7 +2128,7 @@ def cc_requests(world, now):
     return out
 
 
-def cc_one(ctx, world, name, rq, now):
+def cc_one(ctx, world, name, rq, now, methods="default"):
     """one client_credentials request through the real parse_request + process_request; oracle only (the
     parse step of the same request shapes is compared with the model at the five modelled endpoints): the
     token that is issued belongs to a client the request holds a credential of."""
@@ -1999,7 +2138,12 @@ def cc_one(ctx, world, name, rq, now):
     body.pop("code", None)
     body.pop("redirect_uri", None)
     body["grant_type"] = "client_credentials"
-    rec = {"block": "client_credentials", "name": name, "request": rq, "now": now}
+    rec = {"block": "client_credentials", "name": name, "request": rq, "now": now, "variant": world.variant, "methods": methods}
+    dflt = world.__dict__.setdefault("_default_methods", list(ep.client_authn_method))
+    if methods != "default":
+        ep.set_client_authn_methods(client_authn_method=methods)
+    else:
+        ep.client_authn_method = list(dflt)
     proved = proved_identities(world, cfg, rq, now)
     # an empty session store per request: a SECOND client_credentials request of the same client makes
     # ClientCredentials.process_request raise TypeError ('ClientSessionInfo' object is not subscriptable) - a
@@ -2132,6 +2276,167 @@ def long_lived_replays(ctx, world, clock, cases):
     world.eps[ep_b].client_authn_method = list(world.default_methods[ep_b])
 
 
+# ------------------------------------------------------------------ delivery forms: assertions inside encrypted wrappers
+JWS3 = ["client_secret_jwt", "private_key_jwt", "request_param"]
+WRAP_METHODS = [("jws3", JWS3), ("registry", None), ("private-only", ["private_key_jwt"]),
+                ("secret-jwt+basic", ["client_secret_jwt", "client_secret_basic"]), ("request-param+post", ["request_param", "client_secret_post"]),
+                ("default", "default")]
+
+
+def wrapped_contents(world, cfg, now, tag):
+    """(name, content, alg family, cty set) - what can sit inside a wrapper: (a) bare JSON claims naming a registered
+    client, (b) an alg=none JWS, (c) a JWS signed with an unregistered key / another client's key / the client's
+    superseded secret (the key jar still holds it), (d)(e) the genuine HS / RS / ES assertion, text, (g) another
+    wrapper around the genuine assertion / around bare claims"""
+    s = world.secret
+
+    def J(cid, alg, name, **o):
+        sp = good_jwt(world, cfg, cid, alg, now, "w-%s-%s" % (name, tag), **o)
+        sp.pop("rel", None)
+        sp["exp"] = now + 300
+        return sp
+    K = lambda key: kid_for(world, key)
+    return [
+        ("json", lambda n: {"json": J("client_2", "none", "json" + n, key=("sym", ""))}),
+        ("json-of-secret-only-client", lambda n: {"json": J("client_1", "none", "json1" + n, key=("sym", ""))}),
+        ("alg-none", lambda n: J("client_2", "none", "none" + n)),
+        ("unregistered-key", lambda n: J("client_2", "RS256", "unreg" + n, key=("rsa", 3))),
+        ("other-clients-key", lambda n: J("client_2", "ES256", "other" + n, key=("ec", 2))),
+        ("other-clients-secret", lambda n: J("client_2", "HS256", "hsother" + n, key=("sym", s["client_1"]))),
+        ("superseded-secret-kid", lambda n: J("client_4", "HS256", "stale" + n, key=("sym", s["client_4"]), kid=K(("sym", s["client_4"])))),
+        ("secret-in-force-kid", lambda n: J("client_4", "HS256", "rot" + n, key=("sym", ROTATED), kid=K(("sym", ROTATED)))),
+        ("genuine-hs", lambda n: J("client_2", "HS256", "hs" + n, kid=K(("sym", s["client_2"])))),
+        ("genuine-hs-secret-only-client", lambda n: J("client_1", "HS256", "hs1" + n)),
+        ("genuine-rs", lambda n: J("client_2", "RS256", "rs" + n)),
+        ("genuine-es", lambda n: J("client_4", "ES256", "es" + n)),
+        ("text", lambda n: "notjwt"),
+        ("jwe-around-genuine-rs", lambda n: wrap(J("client_2", "RS256", "jj" + n), "ECDH-ES", "JWT")),
+        ("jwe-around-json", lambda n: wrap({"json": J("client_2", "none", "jjson" + n, key=("sym", ""))}, "RSA-OAEP", None)),
+    ]
+
+
+def wrapped_requests(world, cfg, now, tag, full=True):
+    """the delivery-form matrix for one endpoint configuration -> [(name, request)]"""
+    out = []
+    n = 0
+    for field in ("assertion", "request"):
+        for cname, mk in wrapped_contents(world, cfg, now, tag):
+            for alg in (("RSA-OAEP", "ECDH-ES") if full or cname in ("json", "genuine-rs") else ("RSA-OAEP",)):
+                for cty in ("JWT", None):
+                    n += 1
+                    nm = "wrapped:%s:%s:%s:cty-%s" % (field, cname, alg, cty or "absent")
+                    out.append((nm, {field: wrap(mk("-%d" % n), alg, cty)}))
+                    if cname in ("json", "genuine-rs", "alg-none", "unregistered-key") and (full or cty is None):
+                        # the body names the client as well (with the whole registry tried, `public` may pick it up)
+                        n += 1
+                        out.append((nm + ":body-client_id", {field: wrap(mk("-%d" % n), alg, cty), "client_id": "client_2"}))
+        # (f) wrappers made for a key the provider does not have
+        for cname, mk in wrapped_contents(world, cfg, now, tag):
+            if cname in ("json", "genuine-rs", "genuine-hs"):
+                for alg in ("RSA-OAEP", "ECDH-ES"):
+                    for cty in ("JWT", None):
+                        n += 1
+                        out.append(("wrapped:%s:%s:%s:cty-%s:to-a-strangers-key" % (field, cname, alg, cty or "absent"),
+                                    {field: wrap(mk("-%d" % n), alg, cty, to="other")}))
+    # both parameters at once: unsigned claims of one client next to a genuine wrapped assertion of another
+    n += 1
+    cs = dict(wrapped_contents(world, cfg, now, tag))
+    out.append(("wrapped:both:json-request+genuine-es-assertion",
+                {"request": wrap(cs["json"]("-%d" % n), "RSA-OAEP", None), "assertion": wrap(cs["genuine-es"]("-%d" % n), "ECDH-ES", "JWT")}))
+    return out
+
+
+def wrapped_deliveries(ctx, keys, clock, cases):
+    """Deterministic (no rng).  A provider that OWNS an RSA and an EC decryption key (the key jar of rot_jar otherwise;
+    client_4's record holds the rotated secret, so its first secret is superseded).  At each of the five endpoints, for
+    six method lists (the three JWS-based methods; None = the whole registry; private_key_jwt alone; client_secret_jwt
+    + basic; request_param + post; the configured default): client_assertion / request object delivered inside a compact
+    JWE (RSA-OAEP / ECDH-ES, cty JWT / absent, made for the provider's or a stranger's key, one or two layers) around
+    every kind of content.  parse_request vs the model ([seen] / open_assertion), and the oracle as for every request -
+    ground truth: the innermost object and who signed it."""
+    world = World(ctx, keys, "enc")
+    for epn in EPS:
+        for mname, methods in WRAP_METHODS:
+            cfg = {"ep": epn, "methods": methods, "issuer_target": False, "clients": {"client_4": {"secret": ROTATED}}}
+            world.configure(cfg)
+            clock.now = NOW0
+            hist = {"accepted_jti": set()}
+            steps, recs = [], []
+            jdb0 = list(world.c.jti_db.keys())
+            tag = "%s-%s" % (epn[:5], mname)
+            for name, rq in wrapped_requests(world, cfg, NOW0, tag, full=mname in ("jws3", "registry")):
+                term, rec, unmod = run_request(ctx, world, cfg, rq, NOW0, hist)
+                rec["name"] = name
+                a = rec["auth"]
+                verdict = ("accepted:" + str(a[1].get("method"))) if (a and a[0] == "ok" and a[1] and a[1].get("client_id")) else "not-accepted"
+                parts = name.split(":")
+                ctx.count("wrapped:%s:%s:%s:%s" % (parts[1], parts[2], parts[4] if len(parts) > 4 else "", verdict))
+                ctx.count("kind:wrapped")
+                ctx.count("endpoint:" + epn)
+                ctx.case_seen({"ep": epn, "methods": methods, "name": name, "request": rq, "auth": a, "outcome": rec["outcome"]}, True)
+                if unmod:
+                    ctx.unmodelled += 1
+                    if steps:
+                        cases.append((history_term(ctx, world, cfg, jdb0, steps),
+                                      {"cfg": cfg, "variant": world.variant, "tag": "wrapped-" + tag, "steps": recs}))
+                    steps, recs, jdb0 = [], [], list(world.c.jti_db.keys())
+                else:
+                    steps.append(term)
+                    recs.append({"i": len(recs), "name": name, "request": rq, "now": NOW0, "auth": a, "outcome": rec["outcome"],
+                                 "handed_on": {k: v for k, v in rec["seen"].items() if k != "auth"}})
+            if steps:
+                cases.append((history_term(ctx, world, cfg, jdb0, steps),
+                              {"cfg": cfg, "variant": world.variant, "tag": "wrapped-" + tag, "steps": recs}))
+    # ---- what such a request ACHIEVES: revocation of the named client's token, a pushed request stored for it, its
+    # authorization code redeemed (parse_request then process_request on the same provider)
+    for epn in ("token_revocation", "pushed_authorization", "token"):
+        # (not under the whole registry: there `none` / `public` hand a request on without any credential - a code is
+        # redeemed, a named client's token revoked, with or without an assertion; nothing a wrapper adds to.  The
+        # parse block above has the registry rows: handed on NOT authenticated.)
+        for mname, methods in WRAP_METHODS[:1] + WRAP_METHODS[4:5]:
+            cfg = {"ep": epn, "methods": methods, "issuer_target": False, "clients": {}}
+            world.configure(cfg)
+            clock.now = NOW0
+            hist = {"accepted_jti": set()}
+            steps, recs = [], []
+            jdb0 = list(world.c.jti_db.keys())
+            tag = "P%s-%s" % (epn[:5], mname)
+            for name, rq in wrapped_requests(world, cfg, NOW0, tag, full=False):
+                if "secret-in-force" in name or "superseded" in name:
+                    continue
+                pname = "process:%s:%s" % (epn, name)
+                term, rec, unmod = run_processed(ctx, world, cfg, rq, NOW0, hist,
+                                                 {"victim": "client_2" if epn != "pushed_authorization" else None, "holder": "client_2"})
+                rec["name"] = pname
+                ctx.count("kind:wrapped-process")
+                ctx.case_seen({"name": pname, "ep": epn, "methods": methods, "request": rq, "auth": rec["auth"],
+                               "processed": rec["processed"], "victim_token_revoked": rec.get("victim_token_revoked")}, True)
+                if unmod:
+                    ctx.unmodelled += 1
+                    if steps:
+                        cases.append((history_term(ctx, world, cfg, jdb0, steps),
+                                      {"cfg": cfg, "variant": world.variant, "tag": "wrapped-" + tag, "steps": recs}))
+                    steps, recs, jdb0 = [], [], list(world.c.jti_db.keys())
+                else:
+                    steps.append(term)
+                    recs.append({"i": len(recs), "name": pname, "request": rq, "now": NOW0, "auth": rec["auth"],
+                                 "outcome": rec["outcome"], "processed": rec["processed"],
+                                 "handed_on": {k: v for k, v in rec["seen"].items() if k != "auth"}})
+            if steps:
+                cases.append((history_term(ctx, world, cfg, jdb0, steps),
+                              {"cfg": cfg, "variant": world.variant, "tag": "wrapped-" + tag, "steps": recs}))
+    for n in EPS:
+        world.eps[n].client_authn_method = list(world.default_methods[n])
+    # ---- client_credentials at an OAuth2 token endpoint that owns decryption keys (oracle only: owner of the token)
+    cc = CCWorld(keys, enc=True)
+    cc.secret["client_4"] = "no-such-client-at-this-provider-0123456789"
+    for mname, methods in WRAP_METHODS[:2] + WRAP_METHODS[4:]:
+        for name, rq in wrapped_requests(cc, {"ep": "token"}, NOW0, "cc-" + mname, full=False):
+            if "client_4" in json.dumps(rq) or "in-force" in name or "superseded" in name:
+                continue
+            cc_one(ctx, cc, "cc:%s:%s" % (mname, name), rq, NOW0, methods=methods)
+
+
 def side_cases(ctx, world):
     """registry order, set_client_authn_methods, valid_client_secret called directly."""
     from idpyoidc.server import client_authn as CA
@@ -2184,7 +2489,8 @@ def replay(ctx, rp):
         logging.disable(logging.CRITICAL)
         clock = srv.Clock(case["now"]).install()
         try:
-            cc_one(ctx, CCWorld(load_keys(ctx)), case.get("name", "replay"), untuple(case["request"]), case["now"])
+            cc_one(ctx, CCWorld(load_keys(ctx), enc=case.get("variant") == "oauth2-enc"), case.get("name", "replay"),
+                   untuple(case["request"]), case["now"], methods=case.get("methods", "default"))
         finally:
             clock.uninstall()
             logging.disable(logging.NOTSET)
@@ -2248,9 +2554,19 @@ def untuple(rq):
     out = dict(rq)
     if out.get("hdr") is not None:
         out["hdr"] = tuple(out["hdr"])
-    for f in ("assertion", "request"):
-        if isinstance(out.get(f), dict):
-            sp = dict(out[f])
+    def fix(sp):
+        if not isinstance(sp, dict):
+            return sp
+        sp = dict(sp)
+        if "jwe" in sp:
+            sp["inner"] = fix(sp["inner"])
+        elif "json" in sp:
+            sp["json"] = fix(sp["json"])
+        else:
             sp["key"] = tuple(sp["key"])
-            out[f] = sp
+        return sp
+    for f in ("assertion", "request"):
+        out[f] = fix(out.get(f)) if out.get(f) is not None else out.get(f)
+        if out[f] is None:
+            out.pop(f)
     return out
